@@ -139,6 +139,9 @@ inline int run_main(int argc, char** argv){
       catch(manif::runtime_error& ex){ pr.outcome="raise:manif::runtime_error"; pr.msg=ex.what(); }
       catch(std::invalid_argument& ex){ pr.outcome="raise:std::invalid_argument"; pr.msg=ex.what(); }
       catch(std::exception& ex){ pr.outcome="raise:std::exception"; pr.msg=ex.what(); }
+      { // every rounding variable introduced on this path (narrow scalar sym::Lo, static_cast<float> inside the library) is bounded by the unit roundoff
+        std::set<int> seenr; sym::Real u(sym::lo_unit_roundoff());
+        for(int id: sym::rnd_log()) if(seenr.insert(id).second){ sym::Real d=sym::Real::from(id); rec.assume(-u,1,d); rec.assume(d,1,u); } }
       pr.pc=C.pc; pr.items=rec.items; paths.push_back(pr);
       if(stack.size()>C.pc.size()) stack.resize(C.pc.size());
       for(size_t i=stack.size();i<C.pc.size();i++) stack.push_back(St{C.pc[i].taken,false});
